@@ -102,14 +102,15 @@ type Axiom struct {
 }
 
 type ContractSet struct {
-	Funcs    map[string]*Contract
-	SpecFuns map[string]*SpecFun
-	SpecOrd  []string
-	Axioms   []*Axiom
-	RawSMT   []string
-	PkgMode  map[string]map[string]string // pkg name -> mode settings
-	Globals  map[string]*SType            // abstract global state components (stdout, fs, ...)
-	GlobOrd  []string
+	GhostGlobals map[string]bool
+	Funcs        map[string]*Contract
+	SpecFuns     map[string]*SpecFun
+	SpecOrd      []string
+	Axioms       []*Axiom
+	RawSMT       []string
+	PkgMode      map[string]map[string]string // pkg name -> mode settings
+	Globals      map[string]*SType            // abstract global state components (stdout, fs, ...)
+	GlobOrd      []string
 }
 
 func NewContractSet() *ContractSet {
@@ -296,10 +297,18 @@ func (cs *ContractSet) LoadContractFile(path string, pkgName string) error {
 			cur = nil
 		case "smt":
 			cs.RawSMT = append(cs.RawSMT, rest)
-		case "global":
+		case "global", "ghost-global":
 			fs := strings.SplitN(rest, " ", 2)
 			if len(fs) != 2 {
 				return fail(i, "global NAME TYPE")
+			}
+			if kw == "ghost-global" {
+				// a component that exists only in the specification (written by ghost anchors alone): code whose
+				// body is unknown cannot change it
+				if cs.GhostGlobals == nil {
+					cs.GhostGlobals = map[string]bool{}
+				}
+				cs.GhostGlobals[fs[0]] = true
 			}
 			ty, err := ParseSType(strings.TrimSpace(fs[1]))
 			if err != nil {
